@@ -1,8 +1,11 @@
 """C11 — Nesting depth cannot crash the process.
 
 What is proved (coq/Properties/C11.v) is what a model can carry: recursion depth / heap-stack length as functions of the
-nesting depth, the flow limit (FLOW_LEVEL_MAX from the generated Gen/Consts.v), and the refutation of any bound on block
-nesting.  Bytes of stack per activation and the 8 MiB limit are run-time facts, so the property itself is checked here:
+nesting depth; for EVERY token stream the parser nests at most twice as deep as the tokens; for EVERY input the flow level of
+the scanned token stream stays within FLOW_LEVEL_MAX (generated Gen/Consts.v); composed: for EVERY text the nesting is at most
+2 * (255 + block collection starts + synthetic FlowMappingStart tokens); the refutation of any bound on block nesting and of
+"flow level <= L bounds the nesting"; the repaired '[ ? ] ,' family is rejected.  Bytes of stack per activation and the
+8 MiB limit are run-time facts, so the property itself is checked here:
 
   implementation  build/cargo/{debug,release}/hx_c11 <shape> <depth> <api> — ONE scenario per child process, run on a
                   thread with an explicit 8 MiB stack; a stack overflow kills the child with a signal, which is the
@@ -17,13 +20,25 @@ nesting.  Bytes of stack per activation and the 8 MiB limit are run-time facts, 
                   nesting depth d), the depth reported by hx_c11 equals the intended depth for every shape, and the flow
                   limit of model (Err site 45 at FLOW_LEVEL_MAX) and implementation coincide in position and verdict.
 
+  oracle 2        the extracted Coq function [c11_oracle] (Model/Depth.v; theorem C11_oracle_holds_on_model says it cannot fail on
+                  the model) is run on the IMPLEMENTATION's tokens (`hx tokens`) and events (`hx events str`) of generated inputs
+                  (the families at small depths and at the flow-limit boundary, token / line / flow soups of vlib/gen.py, nesting
+                  soups): (h) the flow level along the real token stream stays within 255, (g) the real events nest at most twice as
+                  deep as the real tokens — what the defect repaired by c5ad60c violated: a regression of it is reported by this
+                  oracle with the failing input, (i) both combined.
+
 Known finding (recorded, not repaired): block nesting has no limit and Parser::load, the destructor of the loaded tree and
 YamlEmitter recurse once per level, so a few dozen kilobytes of block-nested input overflow the 8 MiB stack and abort the
 process.  An abort is attributed to that class iff   shape in entry.shapes  and  api in entry.apis  and
 depth >= entry.min_depth // MARGIN  and the child died of SIGABRT/SIGSEGV after the runtime reported a stack overflow.
-A second recorded class, C11-flow-limit-bypass (shapes `qflow`, `colons`), is handled in exactly the same way: flow-only inputs that
-nest without raising the scanner's flow_level above 1 ("[ ? ] , " repeated: the parser consumes the "]" as the end of the empty key;
-"[" + " :" repeated: one synthetic FlowMappingStart per bare colon), so the 255 limit never triggers and load / drop / emit overflow.
+A second recorded class, C11-flow-limit-bypass (shapes `colons`, `colonsok`), is handled in exactly the same way: flow-only inputs that
+nest without raising the scanner's flow_level above 1 ("[" + " :" repeated: one synthetic FlowMappingStart per bare colon; closed by a
+"]" the parse ends in an error at the "]", closed by as many "}" and a "]" the text is ACCEPTED), so the 255 limit never triggers and
+load / drop / emit overflow.
+The former first member of that class, shape `qflow` ("[ ? ] , " repeated: the parser consumed the "]" as the end of the empty key), was
+repaired by c5ad60c; its scenarios stay as REGRESSION scenarios with an oracle of their own: every one of them, at every depth and
+through every api, must end with the error VALUE "did not find expected <document start>" — an accepted text or an abort is a violation
+(known_findings_c11.jsonl holds a `fixed` entry for it, which suppresses nothing).
 MARGIN = 4: min_depth is the smallest aborting depth measured over both profiles (debug opt-level 1, release opt-level 2);
 frame sizes move with profile and compiler version (measured release/debug threshold ratios 0.93-1.14; an unoptimised build may
 need 2-3 times the stack per level),
@@ -48,23 +63,27 @@ FLOW_LIMIT = 255                      # the property's number; cross-checked wit
 BLOCK_SHAPES = ["seq", "map", "qkey", "alt", "mix"]
 FLOW_SHAPES = ["fseq", "fmap"]
 # flow-only inputs that nest without raising the scanner's flow_level above 1 (the 255 limit never triggers)
-BYPASS_SHAPES = ["qflow", "colons"]
-SHAPES = BLOCK_SHAPES + FLOW_SHAPES + BYPASS_SHAPES
+BYPASS_SHAPES = ["colons", "colonsok"]
+# repaired (c5ad60c): must be an error value at every depth
+REGRESSION_SHAPES = ["qflow"]
+SHAPES = BLOCK_SHAPES + FLOW_SHAPES + BYPASS_SHAPES + REGRESSION_SHAPES
 APIS = ["iter", "load", "drop", "emit"]
 AUX_APIS = ["pdrop", "pemit"]         # drop / emit of a tree built WITHOUT Parser::load: their own thresholds
 RECURSIVE_APIS = ["load", "drop", "emit", "pdrop", "pemit"]
 SHAPE_TEXT = {"seq": "'- ' per level", "map": "'a:' + newline per level, indentation growing by one",
               "qkey": "'? ' per level", "alt": "alternating '- ' / '? '", "fseq": "'[' per level, closed",
               "fmap": "'{a: ' per level, closed", "mix": "'- ' levels around a core of (at most) 100 '[' levels",
-              "qflow": "'[ ? ] , ' per level then d closing ']' (d nested flow sequences at scanner flow level 1)",
-              "colons": "'[' + ' :' per level + ']' (d nested synthetic flow mappings at scanner flow level 1; ends in a parse error)"}
+              "qflow": "'[ ? ] , ' per level then d closing ']' (regression: was accepted as d nested flow sequences before c5ad60c; must be an error value)",
+              "colons": "'[' + ' :' per level + ']' (d nested synthetic flow mappings at scanner flow level 1; ends in a parse error)",
+              "colonsok": "'[' + ' :' per level + ' ' + '}' per level + ']' (d nested synthetic flow mappings at scanner flow level 1; accepted)"}
 # the `map` input has d*(d+5)/2 bytes (10^5 levels = 5 GB): capped
 MAP_CAP = {"quick": 20000, "thorough": 40000}
 # inputs whose recursive consumers are quadratic in time (every level re-hashes its whole key): aux apis capped
 SLOW_CAP = 12000
 QUICK_DEPTHS = [1, 10, 100, 255, 256, 257, 1000, 3000, 10000, 30000, 100000]
 THOROUGH_EXTRA = [2, 3, 5, 20, 50, 200, 254, 258, 300, 500, 2000, 5000, 7000, 15000, 20000, 25000, 40000, 50000, 70000]
-QFLOW_PEMIT_CAP = 40000
+COLONSOK_PEMIT_CAP = 40000
+QFLOW_ERROR = "did not find expected <document start>"
 TIMEOUT = 300
 POOL = 16
 
@@ -90,6 +109,8 @@ def build_input(shape, d):
         return "[ ? ] , " * (d - 1) + ("[ ? ] " if d else "") + "]" * d
     if shape == "colons":
         return "[" + " :" * d + "]"
+    if shape == "colonsok":
+        return "[" + " :" * d + " " + "}" * d + "]"
     raise ValueError(shape)
 
 
@@ -163,8 +184,8 @@ def scenario_depths(tier, shape, api, depths):
         cap = MAP_CAP[tier]
     if api in AUX_APIS and shape in ("qkey", "alt"):
         cap = SLOW_CAP
-    if api == "pemit" and shape == "qflow":
-        cap = QFLOW_PEMIT_CAP        # the block rendering of the tree is quadratic in the depth (900 MB at 30000)
+    if api == "pemit" and shape == "colonsok":
+        cap = COLONSOK_PEMIT_CAP     # the block rendering of the tree is quadratic in the depth (900 MB at 30000)
     ds = sorted(set(min(d, cap) if cap else d for d in depths))
     return ds
 
@@ -180,13 +201,26 @@ def judge(res, o, known, hits):
     case = dict(scenario="hx_c11 %s %d %s (%s profile)" % (shape, depth, api, o["profile"]), shape=SHAPE_TEXT[shape],
                 depth=depth, api=api, profile=o["profile"],
                 input=build_input(shape, depth) if depth <= 300 and shape != "map" else "(see scenario: generated by hx_c11)")
+    if shape in REGRESSION_SHAPES:
+        # repaired class: no suppression; the only acceptable outcome is the error value of the repaired parser
+        if kind == "OK":
+            res.add_violation("regression of c5ad60c: the '[ ? ] , ' text is ACCEPTED again (flow nesting that bypasses the scanner's "
+                              "flow-level limit: the parser consumed the ']' behind an empty explicit key)", case, observation=o)
+            return
+        if kind == "ERR" and QFLOW_ERROR not in o["verdict"]:
+            res.add_tie_break("the '[ ? ] , ' text is rejected, but not with the error the parser model gives (site 3: %s)" % QFLOW_ERROR,
+                              case=case, observation=o)
+        if kind == "ERR":
+            return
     if kind == "ABORT":
         e = known_entry(known, o)
         if e is not None:
             hits.setdefault((e["class"], shape), []).append(o)
             return
         why = ("killed by %s%s" % (o["signal"], " (stack overflow)" if o["stack_overflow"] else ""))
-        if api == "iter":
+        if shape in REGRESSION_SHAPES:
+            why += " for the repaired '[ ? ] , ' family (c5ad60c), which must end with an error value at every depth"
+        elif api == "iter":
             why += " through the ITERATOR api, which must not depend on the call stack"
         elif shape in FLOW_SHAPES:
             why += " for FLOW nesting, which must fail with an error value at depth %d" % (FLOW_LIMIT + 1)
@@ -210,7 +244,7 @@ def judge(res, o, known, hits):
                               case=case, observation=o)
     if kind == "OK" and api in ("iter", "load"):
         rd = reported_depth(o["verdict"])
-        # qflow / colons: the innermost "?" / ":" opens one more (mapping) level inside the d-th collection
+        # colons / colonsok: d mappings inside the one sequence
         if rd != (depth + 1 if shape in BYPASS_SHAPES else depth):
             res.add_tie_break("the generated input does not have the intended nesting depth", case=case, observation=o)
 
@@ -297,37 +331,65 @@ def tie_checks(res, tier):
             res.add_tie_break("correspondence: parser model on the real tokens != real events", depth=d, model=kinds(mt)[:300], impl=ek[:300])
         if kinds(mf) != ek:
             res.add_tie_break("correspondence: model pipeline != real events", depth=d, model=kinds(mf)[:300], impl=ek[:300])
-    # the flow-limit bypass families: the real scanner's tokens are the ones of the Coq witness (qflow_tokens), the
-    # parser model on them / the model pipeline give the implementation's events, and those nest d (+1) deep
+    # the families of the theorems: the real scanner's tokens are the ones of the Coq witnesses (qflow_tokens, cflow_tokens:
+    # the FlowMappingStart of a bare ':' has an EMPTY span, the '[' a non-empty one), the parser model on them / the model
+    # pipeline give the implementation's events; qflow is rejected after nine events (theorem C11_qflow_family_rejected),
+    # colons nests d mappings and fails at the ']', colonsok is accepted and nests d + 1 deep (C11_flow_limit_bypass_family)
     bd = [1, 2, 3, 4, 5, 6, 255, 256, 300]
-    btexts = [build_input("qflow", d) for d in bd] + [build_input("colons", d) for d in bd]
+    fams = ["qflow", "colons", "colonsok"]
+    btexts = [build_input(sh, d) for sh in fams for d in bd]
     blines = [enc(x) for x in btexts]
     btoks = _retry(lambda: run_hx(["tokens"], blines))
     bevs = _retry(lambda: run_hx(["events", "str"], blines))
     bm_tok = _retry(lambda: run_mx(["parse-tokens"], btoks))
     bm_full = _retry(lambda: run_mx(["events", "str"], blines))
-    for i, d in enumerate(bd + bd):
-        n += 1
-        sh = "qflow" if i < len(bd) else "colons"
-        ek = kinds(bevs[i])
-        if sh == "qflow":
+
+    def span_empty(x):
+        a, b = x.rsplit("@", 1)[1].split("-")
+        return a.split(":")[0] == b.split(":")[0]
+    i = -1
+    for sh in fams:
+        for d in bd:
+            i += 1
+            n += 1
+            ek = kinds(bevs[i])
             tk_, tfin = split_line(btoks[i])
             got = [x.rsplit("@", 1)[0] for x in tk_]
-            want = ["SS"] + ["FSS", "K", "FSE", "FEN"] * (d - 1) + ["FSS", "K", "FSE"] + ["FSE"] * d + ["SE"]
-            if got != want or tfin != "END":
-                res.add_tie_break("the real scanner's tokens for the qflow text of depth %d are not the Coq witness family qflow_tokens" % d,
-                                  got=";".join(got)[:300], want=";".join(want)[:300])
-            want_ev = ["SS", "DS0"] + ["QS,0", "MS,0", "SC,0", "SC,0", "ME"] * d + ["QE"] * d + ["DE", "SE"]
-            if ek != ";".join(want_ev) + "|OK":
-                res.add_tie_break("the implementation's events for the qflow text of depth %d are not d nested sequences" % d, got=ek[:300])
-        else:
-            opens = ek.count("MS,0")
-            if opens != d or not (ek.endswith("|ERR") or d == 1):
-                res.add_tie_break("the implementation's events for '[' + ' :'*%d + ']' are not d nested mappings followed by an error" % d, got=ek[:300])
-        if kinds(bm_tok[i]) != ek:
-            res.add_tie_break("correspondence (%s): parser model on the real tokens != real events" % sh, depth=d, model=kinds(bm_tok[i])[:300], impl=ek[:300])
-        if kinds(bm_full[i]) != ek or fin_pos(split_line(bm_full[i])[1]) != fin_pos(split_line(bevs[i])[1]):
-            res.add_tie_break("correspondence (%s): model pipeline != real events" % sh, depth=d, model=kinds(bm_full[i])[:300], impl=ek[:300])
+            if sh == "qflow":
+                want = ["SS"] + ["FSS", "K", "FSE", "FEN"] * (d - 1) + ["FSS", "K", "FSE"] + ["FSE"] * d + ["SE"]
+                if got != want or tfin != "END":
+                    res.add_tie_break("the real scanner's tokens for the qflow text of depth %d are not the Coq witness family qflow_tokens" % d,
+                                      got=";".join(got)[:300], want=";".join(want)[:300])
+                want_ev = ["SS", "DS0", "QS,0", "MS,0", "SC,0", "SC,0", "ME", "QE", "DE"]
+                if ek != ";".join(want_ev) + "|ERR":
+                    res.add_violation("regression of c5ad60c: the '[ ? ] , ' text of depth %d is not rejected after its first '[ ? ]' "
+                                      "(events must be one sequence holding one empty pair, then an error)" % d,
+                                      dict(input=btexts[i], depth=d), got=ek[:300])
+            elif sh == "colons":
+                opens = ek.count("MS,0")
+                if opens != d or not (ek.endswith("|ERR") or d == 1):
+                    res.add_tie_break("the implementation's events for '[' + ' :'*%d + ']' are not d nested mappings followed by an error" % d, got=ek[:300])
+            else:
+                want = ["SS", "FSS"] + ["FMS", "V"] * d + ["FME"] * d + ["FSE", "SE"]
+                if got != want or tfin != "END":
+                    res.add_tie_break("the real scanner's tokens for the colonsok text of depth %d are not the Coq witness family cflow_tokens" % d,
+                                      got=";".join(got)[:300], want=";".join(want)[:300])
+                want_ev = ["SS", "DS0", "QS,0"] + ["MS,0", "SC,0"] * d + ["SC,0"] + ["ME"] * d + ["QE", "DE", "SE"]
+                if ek != ";".join(want_ev) + "|OK":
+                    res.add_tie_break("the implementation's events for the colonsok text of depth %d are not a sequence holding d nested mappings, accepted" % d,
+                                      got=ek[:300])
+            # what tells a synthetic FlowMappingStart from a real one (Model/Depth.v real_flow_open): the span
+            for x in tk_:
+                kind = x.rsplit("@", 1)[0]
+                if kind == "FMS" and not span_empty(x):
+                    res.add_tie_break("a FlowMappingStart token of a text without '{' has a non-empty span (real_flow_open would count it)",
+                                      shape=sh, depth=d, token=x)
+                if kind == "FSS" and span_empty(x):
+                    res.add_tie_break("a FlowSequenceStart token has an empty span", shape=sh, depth=d, token=x)
+            if kinds(bm_tok[i]) != ek:
+                res.add_tie_break("correspondence (%s): parser model on the real tokens != real events" % sh, depth=d, model=kinds(bm_tok[i])[:300], impl=ek[:300])
+            if kinds(bm_full[i]) != ek or fin_pos(split_line(bm_full[i])[1]) != fin_pos(split_line(bevs[i])[1]):
+                res.add_tie_break("correspondence (%s): model pipeline != real events" % sh, depth=d, model=kinds(bm_full[i])[:300], impl=ek[:300])
     # flow limit: model and implementation, verdict and position
     fl = [1, 2, 254, 255, 256, 257, 300]
     ftexts = [build_input(sh, d) for sh in FLOW_SHAPES for d in fl]
@@ -355,9 +417,82 @@ def tie_checks(res, tier):
     return n
 
 
+NEST_PIECES = ["[", "[", "]", "]", "{", "}", ", ", ",", ": ", ":", " :", "? ", "?", "- ", "a", "b", "a: ", " ", "\n", "\n  ", "[ ? ]",
+               "[ ? ] , ", "{a: ", "'q'", "&x ", "*x", "!t ", "# c\n", "---\n", "|\n x\n"]
+
+
+def nest_soups(n, rng, maxlen=30):
+    out = []
+    for _ in range(n):
+        k = 1 + rng.randrange(maxlen)
+        out.append("".join(rng.choice(NEST_PIECES) for _ in range(k)))
+    return out
+
+
+def oracle_checks(res, tier, rng):
+    """theorems (g), (h), (i) of Properties/C11.v as an executable oracle on the implementation's tokens and events"""
+    n = 1500 if tier == "quick" else 25000
+    groups = []
+    fam = []
+    for sh in SHAPES:
+        for d in list(range(1, 13)) + ([254, 255, 256, 257, 300] if sh != "map" else [40]):
+            fam.append(build_input(sh, d))
+    fam += ["[ ? [ ? [ ? a ] ] ]", "[a: b: c: d]", "[ ? ]", "[ ? ] ]", "[ ? : x ]", "a:\n- b\n- c\n", "? - a\n: - b\n",
+            "[" * 300, "{" * 300, "[{" * 150, "{a: [" * 130 + "x" + "]}" * 130]
+    groups.append(("families", fam))
+    groups.append(("nest-soups", nest_soups(n, rng)))
+    groups.append(("soups", gen.soups(n, rng)))
+    groups.append(("line-soups", gen.line_soups(n, rng)))
+    groups.append(("flow-soups", gen.flow_soups(n, rng, maxdepth=6)))
+    res.coverage["oracle_input_distribution"] = {g: len(t) for g, t in groups}
+    texts = [t for _, t in groups for t in t]
+    lines = [enc(t) for t in texts]
+    toks = _retry(lambda: run_hx(["tokens"], lines))
+    evs = _retry(lambda: run_hx(["events", "str"], lines))
+    cases = []
+    idx = []
+    for i, (t, e) in enumerate(zip(toks, evs)):
+        tk, tfin = split_line(t)
+        ek, efin = split_line(e)
+        if "CRASH" in tfin or "TIMEOUT" in tfin or "CRASH" in efin or "TIMEOUT" in efin:
+            res.add_violation("the scanner / the pull parser did not end with success or an error value on a short input (%s / %s)" % (tfin[:40], efin[:40]),
+                              dict(input=texts[i]))
+            continue
+        cases.append(";".join(tk) + "\t" + ";".join(ek))
+        idx.append(i)
+    out = _retry(lambda: run_mx(["oracle"], cases, tag="C11"))
+    deepest = 0
+    stats = dict(cases=len(cases), flow_max=0, tight=0)
+    for i, o in zip(idx, out):
+        res.evaluations += 1
+        m = re.match(r"^([01])([01])([01]) flow=(\d+) nest=(\d+) other=(\d+) depth=(\d+)$", o)
+        if not m:
+            res.add_tie_break("the C11 oracle could not read the implementation's tokens / events", input=texts[i][:200], got=o[:200])
+            continue
+        h, g, c, fl, ne, ot, de = m.group(1), m.group(2), m.group(3), int(m.group(4)), int(m.group(5)), int(m.group(6)), int(m.group(7))
+        case = dict(input=texts[i] if len(texts[i]) <= 400 else texts[i][:400] + "...", flow_level_max=fl, token_nesting=ne,
+                    uncounted_starts=ot, event_nesting=de)
+        if h != "1":
+            res.add_violation("the scanner delivered more than %d unmatched '[' / '{' tokens (flow level %d): the flow-level limit is gone" % (FLOW_LIMIT, fl), case)
+        if g != "1":
+            res.add_violation("the events nest deeper (%d) than twice the nesting of the tokens (%d): the parser opened a collection without a "
+                              "collection-start token or consumed a collection-end token without closing (the class of defect repaired by c5ad60c)" % (de, ne), case)
+        if h == "1" and g == "1" and c != "1":
+            res.add_tie_break("oracle (i) fails although (g) and (h) hold: the arithmetic of the oracle is broken", case=case)
+        if de >= 3:
+            res.nontrivial.add(("oracle", texts[i]))
+        stats["flow_max"] = max(stats["flow_max"], fl)
+        if de == 2 * ne and ne > 0:
+            stats["tight"] += 1
+        deepest = max(deepest, de)
+    stats["deepest_event_nesting"] = deepest
+    res.coverage["oracle"] = stats
+    return len(cases)
+
+
 def check_C11(tier, seed):
     res = Result(ID, tier, seed)
-    proof = prepare(ID, res, need_release=(tier == "thorough"))
+    proof = prepare(ID, res, need_release=(tier == "thorough"), model_tags=("", "C11"))
     rng = gen.rng_for(seed, ID)
     known = load_known()
     depths = list(QUICK_DEPTHS)
@@ -368,7 +503,7 @@ def check_C11(tier, seed):
     depths = sorted(set(depths + extra))
     res.coverage["input_distribution"] = dict(
         shapes=SHAPE_TEXT, apis=APIS + AUX_APIS, depths=depths, seeded_extra_depths=extra,
-        caps=dict(map=MAP_CAP[tier], aux_apis_on_qkey_alt=SLOW_CAP, pemit_on_qflow=QFLOW_PEMIT_CAP),
+        caps=dict(map=MAP_CAP[tier], aux_apis_on_qkey_alt=SLOW_CAP, pemit_on_colonsok=COLONSOK_PEMIT_CAP),
         profiles=["debug"] + (["release"] if tier == "thorough" else []), stack="8 MiB thread (explicit)")
     res.coverage["known_findings_file"] = dict(path=os.path.relpath(KNOWN_FILE, core.VERIF), entries=len(known), margin=MARGIN)
     if res.harness_ok:
@@ -381,7 +516,7 @@ def check_C11(tier, seed):
             for prof in profiles:
                 obs += sweep(prof, tier, depths, SHAPES, APIS, pool)
                 # the aux apis only where they add information: block shapes, from 1000 levels on
-                obs += sweep(prof, tier, [d for d in depths if d >= 1000], BLOCK_SHAPES + ["qflow"], AUX_APIS, pool)
+                obs += sweep(prof, tier, [d for d in depths if d >= 1000], BLOCK_SHAPES + ["qflow", "colonsok"], AUX_APIS, pool)
             # thresholds: refine every (largest surviving, smallest aborting) bracket
             rel = 0.05 if tier == "quick" else 0.004
             todo = []
@@ -425,8 +560,8 @@ def check_C11(tier, seed):
             per_api = ", ".join("%s>=%d" % (a, min(o["depth"] for o in os_ if o["api"] == a)) for a in apis)
             e = next(k for k in known if k["class"] == cls and sh in k["shapes"])
             extra = ""
-            if sh == "qflow":
-                acc = [o["depth"] for o in obs if o["shape"] == "qflow" and o["kind"] == "OK" and o["depth"] > FLOW_LIMIT]
+            if sh == "colonsok":
+                acc = [o["depth"] for o in obs if o["shape"] == "colonsok" and o["kind"] == "OK" and o["depth"] > FLOW_LIMIT]
                 if acc:
                     extra = "; flow nesting deeper than %d ACCEPTED in %d scenario(s), deepest %d" % (FLOW_LIMIT, len(acc), max(acc))
             res.known.append("class=%s shape=%s (%s): %d scenario(s) aborted with a stack overflow (%s) through the recursive apis; "
@@ -442,8 +577,12 @@ def check_C11(tier, seed):
             n = tie_checks(res, tier)
             res.evaluations += n
             res.coverage["traces_validated_against_impl"] = n
+            res.coverage["oracle_cases"] = oracle_checks(res, tier, rng)
     rule = ("one child process per scenario: nesting depth (fixed ladder 1..10^5 incl. 255/256/257 + seeded log-uniform depths, "
-            "+ bisection of every crash threshold) x 9 shapes (the six of the property + block-around-flow + two flow-limit-bypass families) x 4 apis (+ 2 auxiliary "
+            "+ bisection of every crash threshold) x 10 shapes (the six of the property + block-around-flow + two flow-limit-bypass families "
+            "+ the repaired '[ ? ] ,' family as a regression scenario that must be an error value) x 4 apis (+ 2 auxiliary "
             "apis isolating drop / emit from Parser::load) on an 8 MiB thread; non-trivial = distinct scenarios of depth >= 1000 or at "
-            "the flow-limit boundary 255/256/257; the `map` shape is capped (input is quadratic in the depth)")
+            "the flow-limit boundary 255/256/257; the `map` shape is capped (input is quadratic in the depth); plus the extracted oracle of theorems "
+            "(g)/(h)/(i) on the implementation's tokens and events of the families, nesting soups and the token / line / flow soups of the C01 space "
+            "(non-trivial there = event nesting >= 3)")
     return res.finish(proof, rule)
